@@ -3149,3 +3149,37 @@ Proof. reflexivity. Qed.
 
 Lemma NAppOK_def n : NAppOK n <-> Forall app_ok (r_msgs (rn_raft n)).
 Proof. reflexivity. Qed.
+
+Lemma AL_def r : AL r <-> LogInv (r_log r) /\ Forall app_ok (r_msgs r).
+Proof. reflexivity. Qed.
+
+Module AppSamples.
+  Import Samples RepInvSamples.
+  (* the three-voter node campaigns, one grant makes it leader: it queues a MsgAppend
+     with its empty entry for each peer *)
+  Definition g1 : rawnode. Proof. from_ok (x <- exec f0 OCampaign ;; Ok (fst x)). Defined.
+  Definition vresp : msg :=
+    msg_default <| m_type := MsgRequestVoteResponse |> <| m_from := 2 |> <| m_to := 1 |> <| m_term := 1 |>.
+  Definition g2 : rawnode. Proof. from_ok (x <- exec g1 (OStep vresp) ;; Ok (fst x)). Defined.
+
+  Example ex_election_trace : wrun f0 g2.
+  Proof.
+    eapply (wrun_cons f0 OCampaign g1); [vm_compute; reflexivity|vm_compute; reflexivity|].
+    eapply (wrun_cons g1 (OStep vresp) g2).
+    { unfold msg_wf. split; [|split; [|split]]; intros E; try (vm_compute in E; discriminate E).
+      vm_compute. reflexivity. }
+    { vm_compute. reflexivity. }
+    constructor.
+  Qed.
+
+  Example ex_election_appends :
+    is_leader (rn_raft g2) = true
+    /\ map (fun m => (m_type m, m_to m, m_index m, map e_index (m_entries m)))
+           (filter (fun m => m_type m =? MsgAppend) (r_msgs (rn_raft g2)))
+       = [(MsgAppend, 2, 0, [1]); (MsgAppend, 3, 0, [1])]
+    /\ NAppOK g2.
+  Proof.
+    split; [reflexivity|]. split; [reflexivity|].
+    refine (wrun_AppOK false _ _ ex_election_trace f0_inv _). unfold NAppOK, AppOK. vm_compute. constructor.
+  Qed.
+End AppSamples.
